@@ -13,7 +13,7 @@ Open Scope N_scope.
    rank(i) = number of values below i for EVERY i, get(i) = whether i occurs (i < n),
    successor = the FIRST pair (index, value) with value >= v, predecessor = the LAST pair with value <= v. *)
 Theorem C15_multiset : forall sp md w' n Vs,
-  high_contract sp md -> low_contract ->
+  high_contract sp md ->
   n < 2 ^ 64 -> 1 <= w' <= 63 -> nondecreasing Vs = true -> all_below n Vs = true ->
   lenN Vs + buckets_of n (eff_width w' n (lenN Vs)) < 2 ^ 64 ->
   exists sv H,
@@ -35,7 +35,7 @@ Print Assumptions C15_multiset.
 (* try_from_iter accepts every non-decreasing sequence (whose last value + 1 fits in usize), sizes the universe
    to last + 1 (0 for the empty sequence) and the result answers as above *)
 Theorem C15_try_from_iter_accepts : forall sp md w' Vs,
-  high_contract sp md -> low_contract ->
+  high_contract sp md ->
   1 <= w' <= 63 -> nondecreasing Vs = true ->
   (forall v, last_opt Vs = Some v -> v + 1 < 2 ^ 64) ->
   let n := match last_opt Vs with Some v => v + 1 | None => 0 end in
